@@ -189,9 +189,11 @@ CHECKS = {
             "(chain operands share an engine, transfers lead from an iteration engine) and has the input's engine "
             "(processed_trees_wellformed); relation.join(fixed) with its default options, from an iteration-engine target to a "
             "fixed relation in a database, returns - whenever it succeeds - a well-formed relation in the target's engine whose "
-            "columns are the two operands' (join_with_backtracking_wellformed, from the C03 join induction). Proof (partial): "
+            "columns are the two operands' (join_with_backtracking_wellformed, from the C03 join induction), and with EVERY "
+            "backtrack/transfer/require combination a well-formed relation in the target's engine or (transfer only) the "
+            "fixed relation's database (join_with_every_option_wellformed). Proof (partial): "
             "per-node expression support INSIDE SQL-engine trees, back-tracking of "
-            "joins with non-default options and trees processed through a SQL engine are validated by walking every tree the real library returns, not "
+            "joins with an explicit preferred engine other than the fixed relation's and trees processed through a SQL engine are validated by walking every tree the real library returns, not "
             "proved. " + CORR, "", "DESIGN.md 5/C14"),
     "C15": (PR, "Lean 4 theorems: Transfer.simplify sound, iteration-engine transfers keep content, materialize of locked adds nothing, back-tracking stops at locked nodes, _finish_apply keeps locked nodes + regenerated is_locked table + correspondence",
             "Machine-checked: whatever Transfer.simplify hands back has the original content, the requested engine and is "
